@@ -6,6 +6,7 @@
 #include <nstd/Base.hpp>
 #include <nstd/Debug.hpp>
 #include "vf.h"
+#include "freelist.h"
 #include "tracked.h"
 
 #ifndef KIND
@@ -133,6 +134,7 @@ static void checkInvariant(C& c)
   }
   vf_assert(c.endItem.prev == prev, "inv: end.prev is last");
   vf_assert(listed == c._size, "inv: size counter == order list length");
+  vf_checkFreeList(c);
   if(c.data)
   {
     unsigned chained = 0;
